@@ -59,7 +59,9 @@ SP_OPTIONAL = ["optstrref", "optvecu8", "optsliceu8", "nz", "aliasoptu8"]       
 class Field:
     def __init__(s, ft, idx=None, b=False, tag=None, skip=False, gparam=False):
         s.ft, s.idx, s.b, s.tag, s.skip, s.gparam = ft, idx, b, tag, skip, gparam
-        s.name = None; s.style = 0; s.gshape = "T"; s.alias = None
+        s.name = None; s.gshape = "T"; s.alias = None
+        s.spell = None          # seed of the spelling of this field in the emitted Rust (None: the canonical spelling); see field_spelling
+        s.force = None          # fixed regression schemas: spelling decisions set by hand
     def sp(s): return SPECIAL[s.ft[1]] if s.ft[0] == "sp" else None
     def codec(s): return s.sp()["codec"] if s.sp() else "d"
     def synopt(s):
@@ -67,24 +69,24 @@ class Field:
         if s.sp(): return s.sp()["synopt"]
         return 1 if s.ft[0] == "opt" or (s.ft[0] == "ty" and s.ft[1].startswith("opt(")) else 0
     def clone(s):
-        f = Field(s.ft, s.idx, s.b, s.tag, s.skip, s.gparam); f.name, f.style, f.gshape, f.alias = s.name, s.style, s.gshape, s.alias; return f
+        f = Field(s.ft, s.idx, s.b, s.tag, s.skip, s.gparam); f.name, f.gshape, f.alias, f.spell, f.force = s.name, s.gshape, s.alias, s.spell, s.force; return f
 
 class Variant:
     def __init__(s, idx, shape, fields, enc=None, tag=None):
         s.idx, s.shape, s.fields, s.enc, s.tag = idx, shape, fields, enc, tag
-        s.name = None
+        s.name = None; s.spell = None
     def clone(s):
-        v = Variant(s.idx, s.shape, [f.clone() for f in s.fields], s.enc, s.tag); v.name = s.name; return v
+        v = Variant(s.idx, s.shape, [f.clone() for f in s.fields], s.enc, s.tag); v.name, v.spell = s.name, s.spell; return v
 
 class Def:
     """kind 'S': enc, tag, transparent, shape, fields.  kind 'E': enc, tag, index_only, variants."""
     def __init__(s, kind, enc=None, tag=None, transparent=False, shape="n", fields=None, index_only=False, variants=None, generic=None):
         s.kind, s.enc, s.tag, s.transparent, s.shape, s.fields = kind, enc, tag, transparent, shape, fields or []
         s.index_only, s.variants, s.generic = index_only, variants or [], generic    # generic = (desc, rust) of the type argument
-        s.name = None
+        s.name = None; s.spell = None
     def clone(s):
         d = Def(s.kind, s.enc, s.tag, s.transparent, s.shape, [f.clone() for f in s.fields], s.index_only, [v.clone() for v in s.variants], s.generic)
-        d.name = s.name; return d
+        d.name, d.spell = s.name, s.spell; return d
 
 class Schema:
     def __init__(s, sid, defs): s.sid, s.defs = sid, defs
@@ -331,7 +333,7 @@ def gen_schema(rng, sid):
         for f in all_fields(d):
             if f.ft[0] == "sp" and SPECIAL[f.ft[1]]["borrow"] == "COW": f.b = rng.random() < 0.6
             elif not f.skip: f.b = rng.random() < 0.15
-            f.style = rng.randrange(0, 4)
+    respell(sc, rng)
     fix_borrow_flags(sc)
     name_schema(sc, "T")
     return sc
@@ -375,45 +377,237 @@ def rust_ft(sc, ft, static=False):
     return "Vec<%s>" % rust_ft(sc, ft[1], static)
 
 def field_decl_type(sc, d, f):
-    if f.gparam: return f.gshape
+    """the type as written in the field declaration.  A syntactic `Option<..>` (never the alias forms) is spelled with one of
+    OPTION_PATHS: the macros test the LAST path segment (lib.rs is_option, lifetimes.rs option_lifetime)"""
     if f.ft[0] == "aopt": return f.alias + ("<'a>" if ft_has_lt(sc, f.ft[1]) else "")
-    return rust_ft(sc, f.ft)
+    t = f.gshape if f.gparam else rust_ft(sc, f.ft)
+    if t.startswith("Option<"):
+        k = field_spelling(f)["optpath"]
+        _count("optpath:" + OPTION_PATHS[k])
+        t = OPTION_PATHS[k] + t[len("Option"):]
+    return t
 
 def alias_decls(sc, d):
     """one `type` alias per aopt field: the macro sees a plain path type, rustc sees Option<..>"""
     return ["pub type %s%s = %s;" % (f.alias, "<'a>" if ft_has_lt(sc, f.ft[1]) else "", rust_ft(sc, f.ft))
             for f in all_fields(d) if f.ft[0] == "aopt" and not f.gparam]
 
-def field_attrs(f):
-    """attribute spelling variants (f.style) never change the bytes"""
-    if f.skip: return "#[cbor(skip)]"
-    st = f.style
-    nb = "b" if f.b else "n"
-    parts, inner = [], []
-    if st % 2 == 0: parts.append("#[%s(%d)]" % (nb, f.idx))
-    else: inner.append("%s(%d)" % (nb, f.idx))
-    if f.tag is not None: inner.append("tag(%d)" % f.tag)
-    c = f.codec()
-    if c == "y":
-        if st < 2: inner.append('with = "minicbor::bytes"')
-        else: inner += ['encode_with = "minicbor::bytes::encode"', 'decode_with = "minicbor::bytes::decode"', 'cbor_len = "minicbor::bytes::cbor_len"']
-    elif c == "c1":
-        if st < 2: inner += ['with = "crate::nz"', "has_nil"]
-        else: inner += ['encode_with = "crate::nz::encode"', 'is_nil = "crate::nz::is_nil"', 'decode_with = "crate::nz::decode"', 'nil = "crate::nz::nil"', 'cbor_len = "crate::nz::cbor_len"']
-    elif c == "c0":
-        if st < 2: inner.append('with = "crate::nz"')
-        else: inner += ['decode_with = "crate::nz::decode"', 'encode_with = "crate::nz::encode"', 'cbor_len = "crate::nz::cbor_len"']
-    if inner:
-        if st == 3 and len(inner) > 1: parts += ["#[cbor(%s)]" % x for x in inner]
-        else: parts.append("#[cbor(%s)]" % ", ".join(inner))
-    return " ".join(parts)
+# ---- spellings.  Everything below changes how a definition is WRITTEN, never what it means: the schema text sent to the model, the
+# values, the Canon / Bchk code (field names and positions only) do not depend on it.  Each field / variant / definition carries a
+# seed (`spell`, drawn from the run's rng by respell / new_optional_field / compat_edit; None = the canonical spelling) from which
+# the decisions are derived at emission time; fixed regression schemas set decisions by hand (`force`).
+#   * Option path: Option<..> | core::option::Option<..> | std::option::Option<..>                     (field_decl_type)
+#   * index attribute: #[n(i)] | #[cbor(n(i))], #[b(i)] | #[cbor(b(i))]; on variants n and b alike (the macros use the number only)
+#   * grouping and order: the #[cbor(..)] items of one level merged into one attribute or split over several, in any order the
+#     macros accept (attrs_ok mirrors attrs.rs try_insert / try_from_iter, including the order-dependent merging of
+#     is_nil / nil / has_nil into the codec and the unspecified HashMap order in which one attribute's items reach the total)
+#   * codec: `with = "m"` | the separate items encode_with / decode_with / cbor_len (+ is_nil / nil where `has_nil` supplied them)
+#   * pass-through codecs on fields WITHOUT a codec in the model (pass_eligible): functions that call the trait impls
+#     (support.rs pass_enc / pass_dec / pass_len, module `pass`).  With any codec item present the macros decide optionality by
+#     syntax (encode.rs:543 is_nil, decode.rs:270/330/487): for a syntactic Option that is Option::is_none / Some(None) / the
+#     unguarded unknown-variant arm, for a mandatory type `|_| false` / None / no arm — exactly what Encode::is_nil /
+#     Decode::nil() give for these types (only Option overrides them), so the spelling is behaviour-neutral
+#     (checked on the real macros with /tmp/w_spell/probe, 2026-10-01: 176 comparisons, array and map, absent / None / gap null /
+#     tagged null / unknown variant of a regular and an index_only enum / borrowed leaves / #[b] Cow / variants / transparent).
+#     Never on alias Options (known finding F14) and never on generic-parameter fields (a codec removes the trait bound on T).
+import itertools, copy, collections
+OPTION_PATHS = ["Option", "core::option::Option", "std::option::Option"]
+PASS_SETS = [("dec",), ("dec",), ("enc",), ("enc", "dec"), ("enc", "dec"), ("enc", "dec", "len"), ("enc", "len"), ("dec", "len"), ("len",)]
+PASS_KEY = {"enc": "encode_with", "dec": "decode_with", "len": "cbor_len"}
+CANON_SPELL = dict(optpath=0, nested=False, sep=False, pas=None, short=False, group="one", shuffle=False, seed=0)
+SPELL_STATS = None          # a collections.Counter while spelling_stats() counts
 
-def level_attrs(enc, tag, extra=None):
-    inner = []
-    if enc: inner.append("array" if enc == "a" else "map")
-    if tag is not None: inner.append("tag(%d)" % tag)
-    if extra: inner.append(extra)
-    return "#[cbor(%s)] " % ", ".join(inner) if inner else ""
+def _count(k):
+    if SPELL_STATS is not None: SPELL_STATS[k] += 1
+
+def respell(sc, rng):
+    """fresh spelling seeds for every definition, variant and field of the schema"""
+    for d in sc.defs:
+        d.spell = rng.getrandbits(48)
+        for v in d.variants: v.spell = rng.getrandbits(48)
+        for f in all_fields(d): f.spell = rng.getrandbits(48)
+
+def pass_eligible(f):
+    if f.skip or f.gparam or f.codec() != "d": return False
+    if f.ft[0] == "aopt": return False
+    if f.ft[0] == "sp" and f.ft[1].startswith("alias"): return False
+    return True
+
+def field_spelling(f):
+    if f.spell is None: sp = dict(CANON_SPELL)
+    else:
+        R = random.Random(f.spell)
+        sp = dict(optpath=R.choice((0, 0, 1, 2)), nested=R.random() < 0.4, sep=R.random() < 0.5, pas=None, short=R.random() < 0.5, group=None, shuffle=True)
+        if R.random() < 0.3: sp["pas"] = "with" if R.random() < 0.25 else R.choice(PASS_SETS)
+        sp["seed"] = R.getrandbits(32)
+    if f.force: sp.update(f.force)
+    return sp
+
+_KIND = {"n": "Index", "b": "Index", "tag": "Tag", "with": "Codec", "encode_with": "Codec", "decode_with": "Codec", "is_nil": "IsNil", "nil": "Nil",
+         "has_nil": "HasNil", "cbor_len": "CborLen", "skip": "Skip", "map": "Encoding", "array": "Encoding", "index_only": "IndexOnly", "transparent": "Transparent"}
+def _item_key(item): return item.lstrip("@").split("(")[0].split(" =")[0].strip()
+
+def _ins(st, kind, val):
+    """attrs.rs:292 try_insert restricted to what the generator writes.  Codec values: ["E"|"D"|"B", has is_nil, has nil] | ["M", has_nil]"""
+    if kind in st:
+        if kind == "Codec":
+            cc = st["Codec"]
+            if val[0] == "E" and cc[0] == "D": st["Codec"] = ["B", val[1], cc[2]]; return True
+            if val[0] == "D" and cc[0] == "E": st["Codec"] = ["B", cc[1], val[2]]; return True
+        return False                                                # duplicate attribute
+    cc = st.get("Codec")
+    if kind == "IsNil":
+        if cc and cc[0] in "EB":
+            if cc[1]: return False
+            cc[1] = True; return True
+    elif kind == "Nil":
+        if cc and cc[0] in "DB":
+            if cc[2]: return False
+            cc[2] = True; return True
+    elif kind == "HasNil":
+        if cc and cc[0] == "M":
+            if cc[1]: return False
+            cc[1] = True; return True
+    elif kind == "Codec":
+        val = list(val)
+        if val[0] in "EB" and "IsNil" in st:
+            del st["IsNil"]
+            if val[1]: return False
+            val[1] = True
+        if val[0] in "DB" and "Nil" in st:
+            del st["Nil"]
+            if val[2]: return False
+            val[2] = True
+        if val[0] == "M":
+            if "HasNil" in st:
+                del st["HasNil"]
+                if val[1]: return False
+                val[1] = True
+            if "CborLen" in st: return False                        # `with` and `cbor_len` are mutually exclusive
+    elif kind == "CborLen":
+        if cc and cc[0] == "M": return False
+    st[kind] = val
+    return True
+
+_OK_CACHE = {}
+def attrs_ok(groups):
+    """do the unmodified macros accept these attributes (a list of attributes, each a list of items) on one field / variant / type?
+    attrs.rs:84 try_from_iter: every attribute is parsed into its own table (items in order), whose entries are then moved into the
+    total in HashMap order — so it must hold for every order of the entries that interact"""
+    key = tuple(tuple(_item_key(x) for x in g) for g in groups)
+    if key in _OK_CACHE: return _OK_CACHE[key]
+    def run():
+        states = [{}]
+        for g in key:
+            m = {}
+            for k in g:
+                val = {"encode_with": ["E", False, False], "decode_with": ["D", False, False], "with": ["M", False]}.get(k, True)
+                if not _ins(m, _KIND[k], val): return False
+            inter = [k for k in m if k in ("Codec", "IsNil", "Nil", "HasNil", "CborLen")]
+            rest = [k for k in m if k not in inter]
+            new = []
+            for st in states:
+                for perm in itertools.permutations(inter):
+                    s2 = copy.deepcopy(st)
+                    for k in rest + list(perm):
+                        if not _ins(s2, k, copy.deepcopy(m[k])): return False
+                    if s2 not in new: new.append(s2)
+            states = new
+        for st in states:
+            if "IsNil" in st or "Nil" in st or "HasNil" in st: return False          # `is_nil` requires `encode_with`, …
+            if "Skip" in st and len(st) > 1: return False
+            if "Tag" in st and ("IndexOnly" in st or "Transparent" in st): return False
+        return True
+    _OK_CACHE[key] = run()
+    return _OK_CACHE[key]
+
+def arrange(R, index, items, nested, group=None, shuffle=True):
+    """-> list of attributes (lists of items; "@n(3)" stands for the short form #[n(3)]).  items is in canonical order (accepted as
+    one attribute); a random order and grouping is kept only if the macros accept it"""
+    for _ in range(12 if shuffle else 1):
+        its = list(items)
+        if nested and index: its.insert(0, index)
+        if shuffle: R.shuffle(its)
+        g = group or R.choice(("one", "each", "cut", "cut"))
+        if g == "one": groups = [its] if its else []
+        elif g == "each": groups = [[x] for x in its]
+        else:
+            groups, cur = [], []
+            for x in its:
+                cur.append(x)
+                if R.random() < 0.45: groups.append(cur); cur = []
+            if cur: groups.append(cur)
+        if index and not nested: groups.insert(R.randrange(len(groups) + 1) if shuffle else 0, ["@" + index])
+        if attrs_ok(groups):
+            if shuffle and [x for g in groups for x in g if not x.startswith("@")] != ([index] if nested and index else []) + list(items): _count("order:shuffled")
+            return groups
+        _count("arrange:rejected")
+    groups = ([["@" + index]] if index else []) + ([list(items)] if items else [])
+    assert attrs_ok(groups), groups
+    return groups
+
+def render_attrs(groups):
+    return " ".join("#[%s]" % g[0][1:] if g[0].startswith("@") else "#[cbor(%s)]" % ", ".join(g) for g in groups)
+
+def field_items(f, sp):
+    """the #[cbor(..)] items of a field besides its index, canonical order"""
+    items = []
+    if f.tag is not None: items.append("tag(%d)" % f.tag)
+    c = f.codec()
+    sep3 = lambda m: ['encode_with = "%s::encode"' % m, 'decode_with = "%s::decode"' % m, 'cbor_len = "%s::cbor_len"' % m]
+    if c == "y":
+        items += sep3("minicbor::bytes") if sp["sep"] else ['with = "minicbor::bytes"']
+    elif c == "c1":
+        if sp["sep"]: items += ['encode_with = "crate::nz::encode"', 'is_nil = "crate::nz::is_nil"', 'decode_with = "crate::nz::decode"', 'nil = "crate::nz::nil"', 'cbor_len = "crate::nz::cbor_len"']
+        else: items += ['with = "crate::nz"', "has_nil"]
+    elif c == "c0":
+        items += sep3("crate::nz") if sp["sep"] else ['with = "crate::nz"']
+    if c != "d": _count("codec:separate items" if sp["sep"] else "codec:with")
+    if c == "d" and sp["pas"] and pass_eligible(f):
+        pre = "" if sp["short"] else "crate::support::"
+        if sp["pas"] == "with": items.append('with = "%spass"' % pre)
+        else: items += ['%s = "%spass_%s"' % (PASS_KEY[k], pre, k) for k in sp["pas"]]
+        _count("pass:" + (sp["pas"] if sp["pas"] == "with" else "+".join(sp["pas"])))
+        _count("pass (any) on " + ("a syntactic Option" if f.synopt() else "a mandatory type"))
+    return items
+
+def field_attrs(f):
+    """spelling variants never change the bytes"""
+    if f.skip: return "#[cbor(skip)]"           # `skip` does not allow other attributes (attrs.rs:113)
+    sp = field_spelling(f)
+    index = "%s(%d)" % ("b" if f.b else "n", f.idx)
+    groups = arrange(random.Random(sp["seed"]), index, field_items(f, sp), sp["nested"], sp["group"], sp["shuffle"])
+    _count("field"); _count("field index:#[cbor(%s(i))]" % index[0] if sp["nested"] else "field index:#[%s(i)]" % index[0])
+    _count("field attributes:%d" % min(len(groups), 4)); _count("field items in one attribute (max):%d" % min(max(len(g) for g in groups), 4))
+    return render_attrs(groups)
+
+def level_attrs(enc, tag, extra=None, spell=None, index=None, what="type"):
+    """type level (array | map, tag, transparent | index_only) and variant level (index, array | map, tag)"""
+    items = []
+    if enc: items.append("array" if enc == "a" else "map")
+    if tag is not None: items.append("tag(%d)" % tag)
+    if extra: items.append(extra)
+    if spell is None:
+        groups = arrange(None, "n(%d)" % index if index is not None else None, items, False, "one", False)
+    else:
+        R = random.Random(spell)
+        ix, nested = None, False
+        if index is not None:
+            ix = "%s(%d)" % (R.choice("nnb"), index); nested = R.random() < 0.4
+            _count("variant index:#[cbor(%s(i))]" % ix[0] if nested else "variant index:#[%s(i)]" % ix[0])
+        groups = arrange(R, ix, items, nested)
+    _count(what); _count("%s attributes:%d" % (what, min(len(groups), 4)))
+    return render_attrs(groups) + " " if groups else ""
+
+def spelling_stats(schemas):
+    """how often each spelling occurs in the Rust emitted for these schemas"""
+    global SPELL_STATS
+    SPELL_STATS = collections.Counter()
+    try:
+        for sc in schemas:
+            for k in range(len(sc.defs)): emit_def(sc, k)
+        return dict(SPELL_STATS)
+    finally: SPELL_STATS = None
 
 def parse_expr(sc, ft, p="p"):
     if ft[0] == "sp": return SPECIAL[ft[1]]["parse"].format(p=p)
@@ -474,7 +668,7 @@ def emit_def(sc, k):
     st_name = def_rust_name(sc, k, static=True)
     out = alias_decls(sc, d) + ["#[derive(Encode, Decode, CborLen)]"]
     if d.kind == "S":
-        attrs = level_attrs(d.enc, d.tag, "transparent" if d.transparent else None)
+        attrs = level_attrs(d.enc, d.tag, "transparent" if d.transparent else None, d.spell)
         out.append("%spub struct %s%s%s%s" % (attrs, d.name, g, fields_rust(sc, d, d.fields, d.shape, True), "" if d.shape == "n" else ";"))
         ctor = d.name + binders(d.fields, d.shape)
         shows = ", ".join(show_expr(sc, f.ft, "x%d" % p) for p, f in enumerate(d.fields))
@@ -484,8 +678,8 @@ def emit_def(sc, k):
         out.append("impl Bchk for %s { #[allow(unused_variables)] fn bchk(&self, lo: usize, hi: usize) -> bool { let %s = self; %s } }"
                    % (st_name, ctor, " && ".join(["true"] + bor)))
     else:
-        attrs = level_attrs(d.enc, d.tag, "index_only" if d.index_only else None)
-        vs = ", ".join("#[n(%d)] %s%s%s" % (v.idx, level_attrs(v.enc, v.tag), v.name, fields_rust(sc, d, v.fields, v.shape, False)) for v in d.variants)
+        attrs = level_attrs(d.enc, d.tag, "index_only" if d.index_only else None, d.spell)
+        vs = ", ".join("%s%s%s" % (level_attrs(v.enc, v.tag, None, v.spell, v.idx, "variant"), v.name, fields_rust(sc, d, v.fields, v.shape, False)) for v in d.variants)
         out.append("%spub enum %s%s { %s }" % (attrs, d.name, g, vs))
         parms, shows, bors = [], [], []
         for v in d.variants:
@@ -792,10 +986,10 @@ def twin(sc, rng):
             perms[key] = perm
             fs[:] = [fs[i] for i in perm]
             for f in fs:
-                f.style = rng.randrange(0, 4)
                 if not f.skip and not (f.ft[0] == "sp" and SPECIAL[f.ft[1]]["borrow"] == "COW") and not ft_has_lt(sc, f.ft):
                     f.b = not f.b
         if d.kind == "E": rng.shuffle(d.variants)
+    respell(t, rng)
     fix_borrow_flags(t)
     name_schema(t, "U", rng)
     def conv_ft(ft, v):
@@ -858,7 +1052,7 @@ def new_optional_field(rng, sc, k, fields, enc, tagged=None, reserved=()):
     else: ft = ("ty", rng.choice(OPT_PLAIN))
     tag = pick_tag(rng, 0.25 if tagged is None else (1.0 if tagged else 0.0))
     f = Field(ft, idx, b=ft_has_lt(sc, ft), tag=tag)
-    f.style = rng.randrange(0, 4)
+    f.spell = rng.getrandbits(48)
     return f
 
 def compat_edit(sc, rng, sid):
@@ -888,6 +1082,8 @@ def compat_edit(sc, rng, sid):
                     venc = rng.choice([None, "a", "m"])
                     n = rng.choice([1, 1, 2, 3])
                     nv = Variant(idx, rng.choice("nt"), gen_fields(rng, t.defs, e, n, (venc or d.enc or "a") == "a", allow_skip=False, allow_lt=def_has_lt(t, d)), enc=venc, tag=pick_tag(rng, 0.2))
+                nv.spell = rng.getrandbits(48)
+                for f in nv.fields: f.spell = rng.getrandbits(48)
                 d.variants.insert(rng.randrange(0, len(d.variants) + 1), nv); done.append("variant")
         else:
             cand = [(k, v) for k, d in enumerate(t.defs) if d.kind == "E" and not d.index_only for v in d.variants if v.shape == "u"]
@@ -1005,6 +1201,29 @@ def fixed_schemas():
         out[sid + "ro"] = mk(sid + "ro", [rg_old.clone(), aholder(enc)]); out[sid + "rn"] = mk(sid + "rn", [rg_new.clone(), aholder(enc)])
     qholder = lambda: Def("S", fields=[F(("opt", ("ref", 0)), 0), F(("aopt", ("ref", 1)), 1), F(("aopt", ("ty", "string")), 2, tag=9), F(("ty", "u8"), 3)])
     out["aoqo"] = mk("aoqo", [io_old.clone(), rg_old.clone(), qholder()]); out["aoqn"] = mk("aoqn", [io_new.clone(), rg_new.clone(), qholder()])
+    # ---- spellings (reviewer round R5B): definitions whose meaning is the default one but which are WRITTEN another way
+    def FS(ft, idx, tag=None, **force):
+        f = F(ft, idx, tag=tag); f.force = force; return f
+    # qop: Option by a qualified path + the bytes codec; None must be omitted under map encoding / dropped at the end of an array,
+    # an absent entry must read as None (is_option must look at the LAST path segment)
+    out["qop"] = mk("qop", [
+        Def("S", enc="m", fields=[FS(("sp", "optvecu8"), 0, optpath=1), F(("ty", "u8"), 1)]),
+        Def("S", enc="m", fields=[FS(("sp", "optvecu8"), 0, optpath=2, sep=True), FS(("sp", "optsliceu8"), 2, optpath=1, sep=True, nested=True), F(("ty", "u8"), 1)]),
+        Def("S", fields=[F(("ty", "u8"), 0), FS(("sp", "optvecu8"), 1, optpath=1), FS(("sp", "optvecu8"), 2, tag=9, optpath=2)]),
+        Def("E", enc="m", variants=[Variant(0, "n", [FS(("sp", "optvecu8"), 0, optpath=1), FS(("ty", "opt(u8)"), 1, optpath=2, pas=("enc", "dec")), F(("ty", "u8"), 2)])])])
+    # hk: Option<Enum> with a pass-through decode function and no `nil` (old / new enum pair, array and map, regular and index_only
+    # enum, one holder with `with`): the unknown-variant arm for a codec without nil path on a syntactic Option (decode.rs:278)
+    hk = lambda enc, e, **force: Def("S", enc=enc, fields=[FS(("opt", ("ref", e)), 0, **force), F(("ty", "u8"), 1)])
+    hk_defs = lambda a, b: [a.clone(), b.clone(), hk(None, 0, pas=("dec",), short=True), hk("m", 0, pas=("dec",)), hk(None, 1, pas=("dec",), optpath=1),
+                            hk("m", 1, pas=("enc", "dec", "len"), nested=True), hk(None, 0, pas="with"), hk("m", 0, pas=("dec", "len"), optpath=2)]
+    rk_old = Def("E", variants=[Variant(0, "u", [])])
+    rk_new = Def("E", variants=[Variant(0, "u", []), Variant(1, "t", [F(("ty", "u32"), 0)])])
+    out["hko"] = mk("hko", hk_defs(rk_old, io_old)); out["hkn"] = mk("hkn", hk_defs(rk_new, io_new))
+    # trs: transparent newtypes whose field has encode_with and decode_with given SEPARATELY (CustomCodec::Both), in both orders, in
+    # one attribute and split: Encode, Decode and CborLen must all use the codec
+    trs = lambda ft, shape, **force: Def("S", transparent=True, shape=shape, fields=[FS(ft, 0, sep=True, **force)])
+    out["trs"] = mk("trs", [trs(("sp", "vecu8"), "t"), trs(("sp", "arr4u8"), "n", group="each"), trs(("sp", "vecu8"), "n", shuffle=True, seed=3),
+                            trs(("sp", "optvecu8"), "t", shuffle=True, seed=1, group="each", optpath=1), trs(("sp", "nz0"), "t"), trs(("sp", "cowu8"), "n", nested=True)])
     # the example of the crate documentation (lib.rs:47-71)
     point = Def("S", fields=[F(("ty", "f64"), 0), F(("ty", "f64"), 1)])
     state = Def("E", variants=[Variant(0, "u", []), Variant(1, "n", [F(("ty", "u64"), 0)])])
@@ -1033,7 +1252,7 @@ def get_world(tier, rng):
         t, done = compat_edit(sc, r, sc.sid + "c")
         if done and not has_lt_change(sc, t): w.compat.append((sc, t, done))
     w.compat += [(w.fixed["f9o"], w.fixed["f9n"], ["variant"]), (w.fixed["rgo"], w.fixed["rgn"], ["variant"]), (w.fixed["f10o"], w.fixed["f10n"], ["add"])]
-    w.compat += [(w.fixed[p + "o"], w.fixed[p + "n"], ["variant"]) for p in ("aoa", "aom", "aoar", "aomr", "aoq")]
+    w.compat += [(w.fixed[p + "o"], w.fixed[p + "n"], ["variant"]) for p in ("aoa", "aom", "aoar", "aomr", "aoq", "hk")]
     w.mandatory = []         # (reader, writer lacking a mandatory field, (def, variant, idx))
     for sc in w.base[: max(10, nbase * 3 // 10)]:
         m = drop_mandatory(sc, r, sc.sid + "m")
